@@ -181,6 +181,10 @@ def run(prop, tier=None, replay=None):
         for k, line in enumerate(rl):
             for wn, w in (wraps[0], wraps[2]) if tier == "quick" else wraps[:4]:
                 inputs.append(("reader-lines", w % line, {"line": line, "wrap": wn}))
+        # an END statement that carries a name behind an opening statement that has none (BLOCK DATA is the unit that may be unnamed)
+        for src in ("block data\nend block data a\n", "block data ! c\nend block data a\n", "block data\n common /b/ x\nend block data b\n",
+                    "subroutine s\nend subroutine s\nblock data\nend block data s\n", "block data\nend block data\n"):
+            inputs.append(("unit-ends", src, {"line": src.split("\n")[0], "wrap": "none"}))
         # invalid UTF-8 at different position classes of a file
         base = "program p\n  character(len=3) :: s\n  s = 'abc' ! comment\n  print *, s\nend program p\n".encode()
         positions = [0, 8, 10, 20, 38, 45, 50, 60, len(base) - 1, len(base)]
@@ -201,6 +205,14 @@ def run(prop, tier=None, replay=None):
                 jobs.append({"std": std, "ic": ic, "src": src})
         cases.append({"id": i, "fam": fam, "src": src, "prov": prov, "jobs": jobs})
     res = pmap(work, [{"id": c["id"], "jobs": c["jobs"]} for c in cases], timeout=CASE_TIMEOUT_S, batch=16)
+    # an input whose child gave no result is run once more in a child of its own (a child that is starved on a loaded machine must
+    # not become a verdict: the bound is on the parse, which then has the whole limit to itself); only a second failure is reported
+    again = [i for i, r in enumerate(res) if "__timeout__" in r or "__died__" in r]
+    if again:
+        res2 = pmap(work, [{"id": cases[i]["id"], "jobs": cases[i]["jobs"]} for i in again], timeout=CASE_TIMEOUT_S, batch=1)
+        for i, r in zip(again, res2):
+            res[i] = r
+        chk.cov["inputs_run_a_second_time_after_no_result"] = len(again)
     chk.phase("observe")
     D = session.Digests()
     events = []
